@@ -102,6 +102,22 @@ s5 = { (x | y ~ x)+ ~ (y | x)? }
 s6 = { x | y | x ~ x }
 s7 = _{ ("a" ~ x | x ~ "b" | "b" ~ x){1,2} }
 ''')
+    # `.content` hops (PUSH, &) are transparent for Option flattening: an Option-producing wrapper around PUSH(..) / &(..)
+    # around another Option-producing wrapper must give ONE Option (both derivations)
+    add("h_content", r'''
+x = { "1" }
+y = { "y" }
+c0 = { (PUSH(x?) ~ "a" ~ y)? ~ "b" }
+c1 = { (&(x | y) ~ ANY)? }
+c2 = { &(x? ~ "a") ~ ANY+ | "b" }
+c3 = { (PUSH(x | y) ~ "a" | "b") ~ DROP? }
+c4 = { (PUSH(x?) ~ "a")* }
+c5 = { (PUSH(&(x?)) ~ "a")? ~ "b"? }
+c6 = { ((&(x?) ~ "a") | y)+ }
+c7 = { (&(PUSH(x | y ~ x)) ~ ANY)? ~ "b" }
+c8 = _{ (PUSH((x ~ "a")?))? ~ y }
+c9 = { (PUSH(PUSH(x?)?) ~ "a")? ~ (&(&(y | x)) ~ ANY | "b") }
+''')
     # built-ins are getters too (they are not rule structs: only tied, no oracle), EOI is a rule
     add("h_builtin", r'''
 a = { "a" }
